@@ -24,6 +24,12 @@ func init() { log.SetOutput(io.Discard) }
 
 const Module = "verif.test/proj"
 
+// Infix is inserted after the module path in every synthesised import path ("/c12"), so that
+// many programs can live in one scratch module (DESIGN §8.1). Empty for in-process runs.
+var Infix = ""
+
+func Base() string { return Module + Infix }
+
 type File struct {
 	Name string
 	Src  string
